@@ -208,7 +208,7 @@ func c41(c *rig.Ctx) {
 		"Distinct = (damage kind, open-mode multiset, outcome multiset); non-trivial = at least one opener was refused or read-only")
 	c.Assume("exclusive intervals are compared with CLOCK_MONOTONIC timestamps taken inside the child processes right after open returned and right before Close")
 	n := c.Pick(14, 200)
-	var roSessions, failfast, exclusiveRaces, tracedRO, damaged int
+	var roSessions, failfast, exclusiveRaces, tracedRO, damaged, holderNotReady int
 	for s := 0; s < n; s++ {
 		r := c.SubRand("c41", s)
 		work := c.TempDir("c41")
@@ -310,13 +310,13 @@ func c41(c *rig.Ctx) {
 				defer hw.Done()
 				holder = run("default", -1, damage == "none", false, ready)
 			}()
-			for i := 0; i < 400 && !fileExists(ready); i++ {
+			for i := 0; i < 6000 && !fileExists(ready); i++ { // generous watchdog (60 s): a loaded machine starts processes slowly
 				time.Sleep(10 * time.Millisecond)
 			}
 			if !fileExists(ready) {
 				os.WriteFile(ready+".release", nil, 0o644)
 				hw.Wait()
-				c.Inconclusive("holder never became ready")
+				holderNotReady++ // this session decides nothing; the run is inconclusive only if that happens often (below)
 				continue
 			}
 			before := dirDigest(db)
@@ -481,5 +481,7 @@ func c41(c *rig.Ctx) {
 	c.Count("c41.write_access_races", exclusiveRaces)
 	c.Count("c41.readonly_sessions_audited_with_strace", tracedRO)
 	c.Count("c41.damaged_directories", damaged)
+	c.Count("c41.sessions_skipped_holder_not_ready_within_60s", holderNotReady)
+	c.Require(holderNotReady*10 <= n, "the holder process did not become ready within 60 s in more than a tenth of the sessions (machine overloaded)")
 	c.Require(roSessions > 0 && failfast > 0 && exclusiveRaces > 0 && tracedRO > 0, "one of: read-only session, fail-fast open, write race, traced read-only session was never exercised")
 }
